@@ -402,3 +402,7 @@ def run(chk, facts, tier):
     connectives(chk, facts)
     authorizer(chk, facts)
     typed_sets(chk, facts)
+    from rules import c18_verify
+    c18_verify.check(chk, facts)
+    c18_verify.namesake(chk, facts)
+    c18_verify.unsat_table(chk, facts)
